@@ -73,7 +73,7 @@ from geff_spec.utils import (
 )
 
 if TYPE_CHECKING:
-    from collections.abc import Mapping
+    from collections.abc import Iterator, Mapping
 
     from numpy.typing import NDArray
 
@@ -192,76 +192,23 @@ def create_dummy_in_mem_geff(
     )
     actual_num_edges = min(num_edges, max_possible_edges)
 
-    # Create edges ensuring we don't create duplicates
-    edges_: list[list[Any]] = []
-    edge_count = 0
+    # Create edges without self edges or duplicates: enumerate the node pairs (i, i + offset)
+    # by increasing offset, so the chain 0-1-2-... comes first and every pair occurs once.
+    # Directed graphs continue with the reversed pairs (i + offset, i).
+    def _node_pairs() -> Iterator[list[int]]:
+        for offset in range(1, num_nodes):
+            for i in range(num_nodes - offset):
+                yield [i, i + offset]
+        if directed:
+            for offset in range(1, num_nodes):
+                for i in range(num_nodes - offset):
+                    yield [i + offset, i]
 
-    # For undirected graphs, we need to be more careful about duplicates
-    if not directed:
-        # Create a simple chain first, then add cross edges
-        for i in range(min(actual_num_edges, num_nodes - 1)):
-            source_idx = i
-            target_idx = i + 1
-            edges_.append([int(source_idx), int(target_idx)])
-            edge_count += 1
-
-        # Add remaining edges as cross connections
-        remaining_edges = actual_num_edges - edge_count
-        for i in range(remaining_edges):
-            source_idx = i % (num_nodes - 2)
-            target_idx = (i + 2) % (num_nodes - 1) + 1
-            if source_idx != target_idx:
-                edges_.append([int(source_idx), int(target_idx)])
-                edge_count += 1
-    else:
-        # For directed graphs, we can create more edges efficiently
-        edges_ = []
-        edge_count = 0
-        created_edges = set()  # Track created edges to avoid duplicates
-
-        # First create a chain of edges
-        for i in range(min(actual_num_edges, num_nodes - 1)):
-            source_idx = i
-            target_idx = i + 1
-            edge_tuple = (int(source_idx), int(target_idx))
-            if edge_tuple not in created_edges:
-                edges_.append([int(source_idx), int(target_idx)])
-                created_edges.add(edge_tuple)
-                edge_count += 1
-
-        # Add remaining edges using different patterns
-        remaining_edges = actual_num_edges - edge_count
-        if remaining_edges > 0:
-            # Create edges with different offsets
-            for i in range(remaining_edges * 2):  # Try more iterations to find unique edges
-                source_idx = i % num_nodes
-                target_idx = (i + 2) % num_nodes  # Skip one node
-                if source_idx != target_idx:
-                    edge_tuple = (int(source_idx), int(target_idx))
-                    if edge_tuple not in created_edges:
-                        edges_.append([int(source_idx), int(target_idx)])
-                        created_edges.add(edge_tuple)
-                        edge_count += 1
-
-                        # Stop if we've reached the target
-                        if edge_count >= actual_num_edges:
-                            break
-
-            # If we still need more edges, use another pattern
-            if edge_count < actual_num_edges:
-                for i in range(actual_num_edges * 2):  # Try more iterations to find unique edges
-                    source_idx = i % num_nodes
-                    target_idx = (i + 3) % num_nodes  # Skip two nodes
-                    if source_idx != target_idx:
-                        edge_tuple = (int(source_idx), int(target_idx))
-                        if edge_tuple not in created_edges:
-                            edges_.append([int(source_idx), int(target_idx)])
-                            created_edges.add(edge_tuple)
-                            edge_count += 1
-
-                            # Stop if we've reached the target
-                            if edge_count >= actual_num_edges:
-                                break
+    edges_: list[list[int]] = []
+    for pair in _node_pairs():
+        if len(edges_) >= actual_num_edges:
+            break
+        edges_.append(pair)
 
     edges = np.array(edges_, dtype=node_id_dtype)
     if edges.shape[0] == 0:
